@@ -131,7 +131,13 @@ func (d *DB) getLaunchedShards() map[uint64]struct{} {
 func (d *DB) onUpdatedShardInfo() {
 	if d.LaunchDeadline > 0 {
 		launchedShards := d.getLaunchedShards()
-		if len(launchedShards) == len(d.Shards) {
+		allLaunched := true
+		for shardID := range d.Shards {
+			if _, ok := launchedShards[shardID]; !ok {
+				allLaunched = false
+			}
+		}
+		if allLaunched {
 			plog.Infof("all shards have been launched")
 			d.LaunchDeadline = 0
 		} else {
